@@ -37,8 +37,8 @@ class AxisLoc(Contract):
                     yield {"name": "list%d-tol-%s-%s" % (ln, kind, order), "val": "tollist", "len": ln, "kind": kind, "order": order, "tol": True}
         lsc = ix.LocateSlice()
         for c in lsc.cases(tier):
-            if c["kind"] == "f" and c["mode"] == "strict":
-                continue       # non-monotonic numeric: reached through locate_slice's own proof, not re-bound here
+            if c["kind"] == "f" and c["mode"] == "strict" or c["dir"].endswith("-ties"):
+                continue       # non-monotonic numeric, monotonic with repeated labels: locate_slice's own proof, not re-bound here
             d = dict(c)
             d.update(val="slice", name="slice-" + c["name"], order=c["dir"] if c["mode"] == "bbox" else "unique", tol=False)
             yield d
